@@ -54,7 +54,9 @@ func (s *supOFO) init(spec SupervisorSpec) (supAction, error) {
 func (s *supOFO) childAddSpec(spec SupervisorChildSpec) (supAction, error) {
 	var action supAction
 
-	if s.mode != 0 {
+	if s.mode != 0 || s.shutdown {
+		// (shutdown: the supervisor is stopping its children and will
+		// terminate, a child started now would not be waited for)
 		return action, ErrSupervisorStrategyActive
 	}
 
@@ -89,7 +91,7 @@ func (s *supOFO) childSpec(name gen.Atom) (supAction, error) {
 
 	// single start (if it was terminated normally before)
 
-	if s.mode != 0 {
+	if s.mode != 0 || s.shutdown {
 		return action, ErrSupervisorStrategyActive
 	}
 
@@ -324,6 +326,9 @@ func (s *supOFO) childTerminated(name gen.Atom, pid gen.PID, reason error) supAc
 
 func (s *supOFO) childEnable(name gen.Atom) (supAction, error) {
 	var action supAction
+	if s.shutdown {
+		return action, ErrSupervisorStrategyActive
+	}
 	for _, cs := range s.spec {
 		if cs.Name != name {
 			continue
